@@ -121,6 +121,9 @@ func newGen(cfg *common.Config) *gen {
 	return g
 }
 
+// unsafeMode as Input.Hasher: default hasher, merklizer option WithSafeMode(false) at issuance and verification
+const unsafeMode = -1
+
 func (g *gen) envOf(ld int) *credgen.Env {
 	if ld < 0 || ld >= len(g.envs) {
 		return g.env
@@ -136,6 +139,9 @@ func (g *gen) mzOpts(h int, ld ...int) []merklize.MerklizeOption {
 	o := e.MerklizeOpts()
 	if h > 0 && h <= len(g.alt) {
 		o = append(o, merklize.WithHasher(g.alt[h-1]))
+	}
+	if h == unsafeMode {
+		o = append(o, merklize.WithSafeMode(false))
 	}
 	return o
 }
@@ -473,7 +479,7 @@ func (g *gen) runAll(ins []*Input, coq func(i int) bool) {
 		r := res[i]
 		g.judge(in, &r)
 		g.count(in, &r)
-		g.recs = append(g.recs, &rec{in: in, res: r, coq: coq(i) && in.E2E == nil && in.Kind != "o7"})
+		g.recs = append(g.recs, &rec{in: in, res: r, coq: coq(i) && in.E2E == nil && in.Kind != "o7" && in.Hasher == 0})
 		if in.VP != nil {
 			g.rep.Count("vp-request:" + r.class)
 		}
@@ -719,6 +725,9 @@ func (g *gen) generate() {
 
 	// 9. one serialized schema per subset of the four data slots
 	g.runAll(g.generateSlotSubsets(), func(int) bool { return true })
+
+	// 10. credentials that carry an undefined member already at issuance
+	g.runAll(g.generateUndefined(schs), func(int) bool { return true })
 
 	// observations that are not failures (readings recorded in coq/Claim/README_Binding.md)
 	var optAcc, optAll, idAcc, o7rej, e2eOpt int
